@@ -223,3 +223,114 @@ def selftest():
 
 if __name__ == "__main__":
     print(selftest())
+
+
+# ---------------------------------------------------------------------------------------------
+# integer ("units of the smallest subnormal") arithmetic, usable on object arrays of Python ints
+def units_exp(dt):
+    """exponent k such that every finite float of dt is an integer multiple of 2**k"""
+    f = fmt(dt)
+    return f.emin - f.p + 1
+
+
+def to_units(a):
+    """finite float array -> object array of Python ints n with value == n * 2**units_exp(dtype)"""
+    a = numpy.ascontiguousarray(a)
+    f = fmt(a.dtype)
+    b = a.view(f.uint).astype(numpy.uint64)
+    neg = (b & numpy.uint64(f.sign_bit)) != 0
+    mag = b & numpy.uint64(f.sign_bit - 1)
+    e = (mag >> numpy.uint64(f.p - 1)).astype(numpy.int64)
+    frac_ = (mag & numpy.uint64((1 << (f.p - 1)) - 1)).astype(numpy.int64)
+    m = numpy.where(e == 0, frac_, frac_ | (numpy.int64(1) << numpy.int64(f.p - 1)))
+    sh = numpy.where(e == 0, 0, e - 1)
+    m = numpy.where(neg, -m, m)
+    mo = m.astype(object)
+    if f.bits == 16:
+        return mo * (2 ** sh.astype(object))
+    return numpy.frompyfunc(lambda mm, ss: int(mm) << int(ss), 2, 1)(mo, sh.astype(object))
+
+
+def rn_int_ordinal(n, k, f):
+    """ordinal of RN(n * 2**k) in format f (ties to even; |ordinal| == f.inf_bits means overflow to inf)"""
+    n = int(n)
+    if n == 0:
+        return 0
+    a = -n if n < 0 else n
+    e = a.bit_length() - 1 + k
+    ee = e if e > f.emin else f.emin
+    shift = ee - f.p + 1 - k
+    if shift <= 0:
+        m = a << (-shift)
+    else:
+        m = a >> shift
+        rem = a & ((1 << shift) - 1)
+        half = 1 << (shift - 1)
+        if rem > half or (rem == half and (m & 1)):
+            m += 1
+    o = ((ee - f.emin) << (f.p - 1)) + m
+    if o >= f.inf_bits:
+        o = f.inf_bits
+    return -o if n < 0 else o
+
+
+def rn_units(n_obj, k, dt):
+    """vector RN: object array of ints n (value n*2**k) -> float array of dtype dt"""
+    f = fmt(dt)
+    o = numpy.frompyfunc(lambda n: rn_int_ordinal(n, k, f), 1, 1)(n_obj).astype(numpy.int64)
+    return from_ordinal_arr(dt, o)
+
+
+def representable_units(n_obj, k, dt):
+    """is n*2**k exactly representable (finite) in dt"""
+    f = fmt(dt)
+
+    def rep(n):
+        n = abs(int(n))
+        if n == 0:
+            return True
+        e = n.bit_length() - 1 + k
+        if e > f.emax:
+            return False
+        ee = max(e, f.emin)
+        shift = ee - f.p + 1 - k
+        return shift <= 0 or (n & ((1 << shift) - 1)) == 0
+
+    return numpy.frompyfunc(rep, 1, 1)(n_obj).astype(bool)
+
+
+def nbits_units(n_obj):
+    def nb(n):
+        n = abs(int(n))
+        if n == 0:
+            return 0
+        return (n >> ((n & -n).bit_length() - 1)).bit_length()
+
+    return numpy.frompyfunc(nb, 1, 1)(n_obj).astype(numpy.int64)
+
+
+def selftest_units():
+    rng = numpy.random.default_rng(7)
+    for dt in FLOATS:
+        f = fmt(dt)
+        b = rng.integers(0, 1 << f.bits, size=3000, dtype=numpy.uint64).astype(f.uint).view(dt)
+        b = b[numpy.isfinite(b)]
+        u = to_units(b)
+        k = units_exp(dt)
+        for x, n in zip(b[:400], u[:400]):
+            assert F(int(n)) * F(2) ** k == frac(x), (x, n)
+        r = rn_units(u, k, dt)
+        assert (r.view(f.uint) == b.view(f.uint)).all() or ((r == b) | ((r == 0) & (b == 0))).all()
+        # products / sums vs Fraction RN
+        x, y = b[:300], b[300:600]
+        n = min(len(x), len(y))
+        x, y = x[:n], y[:n]
+        pu = to_units(x) * to_units(y)
+        rp = rn_units(pu, 2 * k, dt)
+        su = to_units(x) + to_units(y)
+        rs = rn_units(su, k, dt)
+        for i in range(n):
+            assert bits_of(RN(frac(x[i]) * frac(y[i]), dt)) == bits_of(rp[i]) or (rp[i] == 0), (x[i], y[i])
+            e = RN(frac(x[i]) + frac(y[i]), dt)
+            assert e == rs[i] or (numpy.isinf(e) and numpy.isinf(rs[i])), (x[i], y[i], e, rs[i])
+    return True
